@@ -12,6 +12,13 @@ F = "w.hdf"
 
 
 def _p(d, name=F):
+    # relative when the caller already sits in d: the SD interface stores the path it was given in the file
+    # (name of the CDF vgroup), and runs that are compared byte for byte must not differ by their scratch directory
+    try:
+        if os.path.realpath(os.getcwd()) == os.path.realpath(d):
+            return name.encode()
+    except OSError:
+        pass
     return os.path.join(d, name).encode()
 
 
@@ -354,6 +361,278 @@ C16_WORKLOADS = [
     ("h_external", None, w_h_external, False),
     ("new_sds_in_mixed", lambda L, d: prep_mixed(L, d, 16, 3), lambda L, d, rec: sess_new_sds(L, d, rec, None), False),
     ("new_image_in_mixed", lambda L, d: prep_mixed(L, d, 16, 3), lambda L, d, rec: sess_new_image(L, d, rec, None), False),
+]
+
+
+# ---- further C16 workloads: paths that are only taken with DD caching off, across linked blocks, through the
+#      compression layers, through external SDS files, and in read/modify sessions on a file with everything in it
+def w_h_nocache(L, d, rec):
+    fid = rec("Hopen", L.Hopen(_p(d), DFACC_CREATE, 4), FAIL)
+    if fid == FAIL:
+        return
+    rec("Hcache", L.Hcache(fid, 0), FAIL)
+    for i in range(11):                       # 4 DDs per block: several new DD blocks are chained in, uncached
+        data = bytes((i * 13 + j) % 256 for j in range(6 + i))
+        rec("Hputelement", L.Hputelement(fid, 2100, 1 + i, data, len(data)), FAIL)
+    rec("Hdeldd", L.Hdeldd(fid, 2100, 3), FAIL)
+    rec("Hdupdd", L.Hdupdd(fid, 2101, 1, 2100, 5), FAIL)
+    rec("Hputelement", L.Hputelement(fid, 2100, 2, b"rewrite", 7), FAIL)
+    b = CBuf(7)
+    r = rec("Hgetelement", L.Hgetelement(fid, 2100, 2, b.ptr), FAIL)
+    rec.data("Hgetelement.data", b.raw(7) if r != FAIL else b"")
+    b.free()
+    rec("Hclose", L.Hclose(fid), FAIL)
+
+
+def w_h_big(L, d, rec):
+    """elements larger than the stdio buffer, overwritten in place and appended to"""
+    fid = rec("Hopen", L.Hopen(_p(d), DFACC_CREATE, 0), FAIL)
+    if fid == FAIL:
+        return
+    big = bytes((j * 7) % 251 for j in range(10000))
+    rec("Hputelement", L.Hputelement(fid, 2200, 1, big, len(big)), FAIL)
+    rec("Hputelement", L.Hputelement(fid, 2200, 2, big[:5000], 5000), FAIL)
+    aid = rec("Hstartwrite", L.Hstartwrite(fid, 2200, 2, 5000), FAIL)
+    if aid != FAIL:
+        rec("Happendable", L.Happendable(aid), FAIL)
+        rec("Hseek", L.Hseek(aid, 4000, 0), FAIL)
+        rec("Hwrite", L.Hwrite(aid, 6000, big[1000:7000]), FAIL)          # grows the last element
+        rec("Hendaccess", L.Hendaccess(aid), FAIL)
+    aid = rec("Hstartwrite", L.Hstartwrite(fid, 2200, 1, 10000), FAIL)
+    if aid != FAIL:
+        rec("Happendable", L.Happendable(aid), FAIL)
+        rec("Hseek", L.Hseek(aid, 9000, 0), FAIL)
+        rec("Hwrite", L.Hwrite(aid, 3000, big[:3000]), FAIL)              # not the last: becomes linked blocks
+        rec("Hendaccess", L.Hendaccess(aid), FAIL)
+    b = CBuf(12000)
+    r = rec("Hgetelement", L.Hgetelement(fid, 2200, 1, b.ptr), FAIL)
+    rec.data("Hgetelement.data", b.raw(12000) if r != FAIL else b"")
+    b.free()
+    rec("Hclose", L.Hclose(fid), FAIL)
+
+
+def w_vdata_append_linked(L, d, rec):
+    fid = rec("Hopen", L.Hopen(_p(d), DFACC_CREATE, 0), FAIL)
+    if fid == FAIL:
+        return
+    rec("Vstart", L.Vinitialize(fid), FAIL)
+    vs = rec("VSattach", L.VSattach(fid, -1, b"w"), FAIL)
+    ref = FAIL
+    if vs != FAIL:
+        rec("VSsetname", L.VSsetname(vs, b"tbl"), FAIL)
+        rec("VSfdefine", L.VSfdefine(vs, b"x", DFNT["int32"], 1), FAIL)
+        rec("VSfdefine", L.VSfdefine(vs, b"y", DFNT["float32"], 2), FAIL)
+        rec("VSsetfields", L.VSsetfields(vs, b"x,y"), FAIL)
+        buf = b"".join(struct.pack("=iff", k, k * 0.5, k * 2.0) for k in range(4))
+        rec("VSwrite", L.VSwrite(vs, buf, 4, FULL_INTERLACE), FAIL)
+        ref = L.VSQueryref(vs)
+        rec("VSdetach", L.VSdetach(vs), FAIL)
+    rec("Hputelement", L.Hputelement(fid, 2300, 1, b"in the way", 10), FAIL)
+    if ref != FAIL:
+        vs = rec("VSattach", L.VSattach(fid, ref, b"w"), FAIL)
+        if vs != FAIL:
+            rec("VSsetblocksize", L.VSsetblocksize(vs, 32), FAIL)
+            rec("VSsetfields", L.VSsetfields(vs, b"x,y"), FAIL)
+            rec("VSseek", L.VSseek(vs, 3), FAIL)
+            buf = b"".join(struct.pack("=iff", 100 + k, k * 1.5, k * 3.0) for k in range(9))
+            rec("VSwrite", L.VSwrite(vs, buf, 9, FULL_INTERLACE), FAIL)   # past the end: linked blocks of 32 bytes
+            rec("VSsetattr", L.VSsetattr(vs, -1, b"unit", DFNT["char8"], 2, b"mm"), FAIL)
+            rec("VSsetattr", L.VSsetattr(vs, 0, b"scale", DFNT["int16"], 1, struct.pack("=h", 4)), FAIL)
+            rb = CBuf(12 * 12)
+            rec("VSseek", L.VSseek(vs, 0), FAIL)
+            r = rec("VSread", L.VSread(vs, rb.ptr, 12, FULL_INTERLACE), FAIL)
+            rec.data("VSread.data", rb.raw(144) if r == 12 else b"")
+            rb.free()
+            rec("VSdetach", L.VSdetach(vs), FAIL)
+    vg = rec("Vattach", L.Vattach(fid, -1, b"w"), FAIL)
+    if vg != FAIL:
+        rec("Vsetname", L.Vsetname(vg, b"grp"), FAIL)
+        if ref != FAIL:
+            rec("Vaddtagref", L.Vaddtagref(vg, DFTAG_VH, ref), FAIL)
+        rec("Vsetattr", L.Vsetattr(vg, b"ga", DFNT["int32"], 2, struct.pack("=2i", 5, 6)), FAIL)
+        rec("Vdetach", L.Vdetach(vg), FAIL)
+    rec("Vend", L.Vfinish(fid), FAIL)
+    rec("Hclose", L.Hclose(fid), FAIL)
+
+
+def w_gr_compressed(L, d, rec):
+    fid = rec("Hopen", L.Hopen(_p(d), DFACC_CREATE, 0), FAIL)
+    if fid == FAIL:
+        return
+    gr = rec("GRstart", L.GRstart(fid), FAIL)
+    if gr != FAIL:
+        for nm, code in ((b"rle", COMP_CODE_RLE), (b"zip", COMP_CODE_DEFLATE)):
+            ri = rec("GRcreate", L.GRcreate(gr, nm, 1, DFNT["uint8"], MFGR_INTERLACE_PIXEL, i32arr([8, 6])), FAIL)
+            if ri == FAIL:
+                continue
+            ci = (c_int32 * 8)()
+            ci[0] = 6
+            rec("GRsetcompress", L.GRsetcompress(ri, code, ci), FAIL)
+            rec("GRwriteimage", L.GRwriteimage(ri, i32arr([0, 0]), None, i32arr([8, 6]), bytes((j // 5) % 7 for j in range(48))), FAIL)
+            rec("GRsetattr", L.GRsetattr(ri, b"ia", DFNT["int16"], 2, struct.pack("=2h", 1, 2)), FAIL)
+            rec("GRendaccess", L.GRendaccess(ri), FAIL)
+        rec("GRsetattr", L.GRsetattr(gr, b"ga", DFNT["char8"], 4, b"glob"), FAIL)
+        ri = rec("GRselect", L.GRselect(gr, 1), FAIL)
+        if ri != FAIL:
+            b = CBuf(48)
+            r = rec("GRreadimage", L.GRreadimage(ri, i32arr([0, 0]), None, i32arr([8, 6]), b.ptr), FAIL)
+            rec.data("GRreadimage.data", b.raw(48) if r != FAIL else b"")
+            b.free()
+            rec("GRendaccess", L.GRendaccess(ri), FAIL)
+        rec("GRend", L.GRend(gr), FAIL)
+    rec("Hclose", L.Hclose(fid), FAIL)
+
+
+def w_sd_rich(L, d, rec):
+    """dimension names and scales, predefined attributes, a compressed and an external data set"""
+    sd = rec("SDstart", L.SDstart(_p(d), DFACC_CREATE), FAIL)
+    if sd == FAIL:
+        return
+    s = rec("SDcreate", L.SDcreate(sd, b"temp", DFNT["float32"], 2, i32arr([4, 3])), FAIL)
+    if s != FAIL:
+        for i, (nm, n) in enumerate(((b"lat", 4), (b"lon", 3))):
+            dim = rec("SDgetdimid", L.SDgetdimid(s, i), FAIL)
+            if dim != FAIL:
+                rec("SDsetdimname", L.SDsetdimname(dim, nm), FAIL)
+                rec("SDsetdimscale", L.SDsetdimscale(dim, n, DFNT["int16"], pack(22, list(range(10, 10 + n)))), FAIL)
+                rec("SDsetdimstrs", L.SDsetdimstrs(dim, b"l", b"deg", b"F5"), FAIL)
+        rec("SDsetdatastrs", L.SDsetdatastrs(s, b"temperature", b"K", b"F7.2", b"cart"), FAIL)
+        rec("SDsetfillvalue", L.SDsetfillvalue(s, struct.pack("=f", -1.0)), FAIL)
+        rec("SDsetrange", L.SDsetrange(s, struct.pack("=f", 400.0), struct.pack("=f", 0.0)), FAIL)
+        rec("SDwritedata", L.SDwritedata(s, i32arr([1, 0]), None, i32arr([2, 3]), struct.pack("=6f", *[k * 1.5 for k in range(6)])), FAIL)
+        rec("SDendaccess", L.SDendaccess(s), FAIL)
+    s = rec("SDcreate", L.SDcreate(sd, b"cmp", DFNT["int16"], 1, i32arr([40])), FAIL)
+    if s != FAIL:
+        ci = (c_int32 * 8)()
+        ci[0] = 6
+        rec("SDsetcompress", L.SDsetcompress(s, COMP_CODE_DEFLATE, ci), FAIL)
+        rec("SDwritedata", L.SDwritedata(s, i32arr([0]), None, i32arr([40]), pack(22, [k // 4 for k in range(40)])), FAIL)
+        rec("SDendaccess", L.SDendaccess(s), FAIL)
+    s = rec("SDcreate", L.SDcreate(sd, b"ext", DFNT["int32"], 1, i32arr([5])), FAIL)
+    if s != FAIL:
+        rec("SDsetexternalfile", L.SDsetexternalfile(s, b"sdext.dat", 0), FAIL)
+        rec("SDwritedata", L.SDwritedata(s, i32arr([0]), None, i32arr([5]), pack(24, [9, 8, 7, 6, 5])), FAIL)
+        rec("SDendaccess", L.SDendaccess(s), FAIL)
+    rec("SDsetattr", L.SDsetattr(sd, b"title", DFNT["char8"], 5, b"hello"), FAIL)
+    rec("SDend", L.SDend(sd), FAIL)
+
+
+def prep_rich_sd(L, d):
+    class R:
+        calls = []
+        datas = []
+
+        def __call__(self, n, r, f):
+            return r
+
+        def data(self, n, raw):
+            pass
+    w_sd_rich(L, d, R())
+    w_sd_chunked_deflate_into(L, d)
+
+
+def w_sd_chunked_deflate_into(L, d):
+    sd = L.SDstart(_p(d), DFACC_RDWR)
+    s = L.SDcreate(sd, b"c", DFNT["int32"], 2, i32arr([5, 4]))
+    L.SDsetchunk(s, chunkdef([2, 3], COMP_CODE_DEFLATE, 6), HDF_COMP)
+    L.SDwritedata(s, i32arr([0, 0]), None, i32arr([5, 4]), pack(24, list(range(20))))
+    L.SDendaccess(s)
+    L.SDend(sd)
+
+
+def w_sd_modify(L, d, rec):
+    """read/modify session on a file that holds scaled, compressed, external and chunked data sets"""
+    sd = rec("SDstart", L.SDstart(_p(d), DFACC_RDWR), FAIL)
+    if sd == FAIL:
+        return
+    for nm, nt, n in ((b"cmp", 22, 40), (b"ext", 24, 5)):
+        idx = rec("SDnametoindex", L.SDnametoindex(sd, nm), FAIL)
+        s = rec("SDselect", L.SDselect(sd, max(idx, 0)), FAIL)
+        if s == FAIL:
+            continue
+        b = CBuf(n * (2 if nt == 22 else 4))
+        r = rec("SDreaddata", L.SDreaddata(s, i32arr([0]), None, i32arr([n]), b.ptr), FAIL)
+        rec.data("SDreaddata." + nm.decode(), b.raw() if r != FAIL else b"")
+        b.free()
+        if nm == b"ext":               # (a compressed, unchunked data set cannot be rewritten in part)
+            rec("SDwritedata", L.SDwritedata(s, i32arr([1]), None, i32arr([3]), pack(nt, [70, 71, 72])), FAIL)
+        rec("SDendaccess", L.SDendaccess(s), FAIL)
+    idx = rec("SDnametoindex", L.SDnametoindex(sd, b"c"), FAIL)
+    s = rec("SDselect", L.SDselect(sd, max(idx, 0)), FAIL)
+    if s != FAIL:
+        rec("SDwritedata", L.SDwritedata(s, i32arr([1, 1]), None, i32arr([3, 2]), pack(24, [500 + k for k in range(6)])), FAIL)
+        b = CBuf(80)
+        r = rec("SDreaddata", L.SDreaddata(s, i32arr([0, 0]), None, i32arr([5, 4]), b.ptr), FAIL)
+        rec.data("SDreaddata.c", b.raw() if r != FAIL else b"")
+        b.free()
+        rec("SDendaccess", L.SDendaccess(s), FAIL)
+    idx = rec("SDnametoindex", L.SDnametoindex(sd, b"temp"), FAIL)
+    s = rec("SDselect", L.SDselect(sd, max(idx, 0)), FAIL)
+    if s != FAIL:
+        rec("SDsetattr", L.SDsetattr(s, b"long_name", DFNT["char8"], 11, b"replacement"), FAIL)
+        dim = rec("SDgetdimid", L.SDgetdimid(s, 0), FAIL)
+        if dim != FAIL:
+            b = CBuf(8)
+            r = rec("SDgetdimscale", L.SDgetdimscale(dim, b.ptr), FAIL)
+            rec.data("SDgetdimscale.data", b.raw() if r != FAIL else b"")
+            b.free()
+        rec("SDendaccess", L.SDendaccess(s), FAIL)
+    rec("SDend", L.SDend(sd), FAIL)
+
+
+def w_mixed_modify(L, d, rec):
+    """read/modify session through the H, V, AN and GR interfaces on the file that holds one of everything"""
+    fid = rec("Hopen", L.Hopen(_p(d), DFACC_RDWR, 0), FAIL)
+    if fid == FAIL:
+        return
+    rec("Vstart", L.Vinitialize(fid), FAIL)
+    vs = rec("VSattach", L.VSattach(fid, L.VSfind(fid, b"oldvd"), b"w"), FAIL)
+    if vs != FAIL:
+        rec("VSsetfields", L.VSsetfields(vs, b"a,b"), FAIL)
+        rec("VSseek", L.VSseek(vs, 2), FAIL)
+        rec("VSwrite", L.VSwrite(vs, struct.pack(">hBB", 99, 9, 9) * 6, 6, FULL_INTERLACE), FAIL)
+        rec("VSdetach", L.VSdetach(vs), FAIL)
+    vg = rec("Vattach", L.Vattach(fid, L.Vfind(fid, b"oldvg"), b"w"), FAIL)
+    if vg != FAIL:
+        rec("Vaddtagref", L.Vaddtagref(vg, 1001, 2), FAIL)
+        rec("Vdeletetagref", L.Vdeletetagref(vg, 1000, 1), FAIL)
+        rec("Vdetach", L.Vdetach(vg), FAIL)
+    rec("Vend", L.Vfinish(fid), FAIL)
+    an = rec("ANstart", L.ANstart(fid), FAIL)
+    if an != FAIL:
+        a = rec("ANselect", L.ANselect(an, 0, AN_FILE_LABEL), FAIL)
+        if a != FAIL:
+            b = CBuf(15)
+            r = rec("ANreadann", L.ANreadann(a, b.ptr, 15), FAIL)
+            rec.data("ANreadann.data", b.raw() if r != FAIL else b"")
+            b.free()
+            rec("ANwriteann", L.ANwriteann(a, b"a longer replacement file label", 31), FAIL)
+            rec("ANendaccess", L.ANendaccess(a), FAIL)
+        rec("ANend", L.ANend(an), FAIL)
+    gr = rec("GRstart", L.GRstart(fid), FAIL)
+    if gr != FAIL:
+        ri = rec("GRselect", L.GRselect(gr, 0), FAIL)
+        if ri != FAIL:
+            b = CBuf(12)
+            r = rec("GRreadimage", L.GRreadimage(ri, i32arr([0, 0]), None, i32arr([3, 2]), b.ptr), FAIL)
+            rec.data("GRreadimage.data", b.raw() if r != FAIL else b"")
+            b.free()
+            rec("GRwriteimage", L.GRwriteimage(ri, i32arr([1, 0]), None, i32arr([2, 2]), bytes([200, 201, 202, 203, 204, 205, 206, 207])), FAIL)
+            rec("GRsetattr", L.GRsetattr(ri, b"note", DFNT["int16"], 3, struct.pack("=3h", 5, 6, 7)), FAIL)
+            rec("GRendaccess", L.GRendaccess(ri), FAIL)
+        rec("GRend", L.GRend(gr), FAIL)
+    rec("Hdeldd", L.Hdeldd(fid, 1000, 3), FAIL)
+    rec("Hclose", L.Hclose(fid), FAIL)
+
+
+C16_WORKLOADS += [
+    ("h_nocache", None, w_h_nocache, True),
+    ("h_big", None, w_h_big, False),
+    ("vdata_append_linked", None, w_vdata_append_linked, False),
+    ("gr_compressed", None, w_gr_compressed, False),
+    ("sd_rich", None, w_sd_rich, False),
+    ("sd_modify", prep_rich_sd, w_sd_modify, False),
+    ("mixed_modify", lambda L, d: prep_mixed(L, d, 4, 3), w_mixed_modify, False),
 ]
 
 
